@@ -361,6 +361,41 @@ def _entry_conditions(ctx, run, fin):
                            construct='%s entry condition' % callee)
     ctx.require(count >= 2, 'callers of the start / finish network '
                             'routines')
+    # the finish side is reached on every completed finish of a container
+    # with a private network - also when an earlier step failed in a way its
+    # handler tolerates
+    for func in fin.all_functions():
+        # judged on the routine that lexically holds the call (its source,
+        # not the view with helpers inlined into their callers)
+        calls = [c for c in K.calls(func.raw)
+                 if isinstance(c.func, ast.Name) and
+                 c.func.id == '_cleanup_network']
+        if not calls:
+            continue
+        graph = C.CFG(func.raw.body, func)
+
+        def shared(edge):
+            for atom in nz.facts_of_edge(edge):
+                key = atom.key
+                if key[0] == 'truth' and key[1] == 'app.shared_network' \
+                        and key[2]:
+                    return True
+                if key[0] == 'truth' and not key[2] and \
+                        key[1].startswith('hasattr(app,') and \
+                        'shared_network' in key[1]:
+                    return True
+            return False
+        path = K.find_path(
+            graph.entry, [graph.exit],
+            cut_node=lambda n: any(c in calls for c in C.node_calls(n)),
+            cut_edge=shared, follow_exc=True)
+        ctx.ob('C16.1', func, calls[0], path is None,
+               'every completed run of %s with a private network passes '
+               'through _cleanup_network, tolerated failures of earlier '
+               'steps included' % func.name,
+               path=K.describe(path) if path else None,
+               construct='%s always reaches the network clean-up' %
+               func.name)
 
 
 def _owner(ctx, start, stop, created, removed):
@@ -440,6 +475,33 @@ def _repeatable(ctx, stop, fin):
                'by an error: a spec owned by another container does not '
                'stop the removal of the remaining ones',
                construct='unlink_all scans every match')
+    # removals do not depend on each other's outcome: after a finish that
+    # failed between two removals of one registration, the repeated finish
+    # still performs the second one
+    nzr = N.Normaliser()
+    for func in (stop, fin.functions.get('_cleanup_ephemeral_ports')):
+        if func is None or ctx.index.absorbed(func):
+            continue
+        fgraph = ctx.cfg(func)
+        ffacts = N.must_facts(fgraph, nzr)
+        outcome_vars = set()
+        for sub in K.walk_no_nested(func.node):
+            if isinstance(sub, ast.Assign) and isinstance(
+                    sub.value, ast.Call) and isinstance(
+                        sub.value.func, ast.Attribute) and \
+                    sub.value.func.attr in _REMOVE:
+                for tgt in sub.targets:
+                    outcome_vars |= set(n.id for n in ast.walk(tgt)
+                                        if isinstance(n, ast.Name))
+        for node, call in K.nodes_calling(
+                fgraph, lambda c: isinstance(c.func, ast.Attribute) and
+                c.func.attr in _REMOVE):
+            dep = [N.show(f) for f in ffacts[node]
+                   if f.mentions & outcome_vars]
+            ctx.ob('C16.3', func, node, not dep,
+                   'this removal does not depend on the outcome of another '
+                   'removal%s' % (': %s' % dep if dep else ''),
+                   construct='independent removal %s' % node.text(40))
     bad = []
     for func in (stop, fin.functions.get('_cleanup_ephemeral_ports')):
         if func is None:
